@@ -8,9 +8,9 @@ def variants(F):
     return [n for n, _ in (F.enum_variants(OBJ) or [])]
 
 
-def top_match(f, scrut_render=None):
+def top_match(f, scrut_render=None, body=None):
     """first non-`?` match of a body (optionally with the given scrutinee rendering)"""
-    for m in H.walk(H.body_of(f)):
+    for m in H.walk(body if body is not None else H.body_of(f)):
         if m.get("k") == "match" and not H.is_try(m):
             if scrut_render is None or H.render(m["scrut"]) == scrut_render:
                 return m
